@@ -3,9 +3,9 @@ PLAN['C07'] = dict(
     units=std_units('C07', [('asan', 'sdcz', 1000, 40000), ('plain', 'sdcz', 1000, 40000), ('asan-i64', 'sdcz', 480, 10000)], chunk=25, cpu=20),
     rule='per generated matrix (fill-producing patterns, complete and incomplete LU, all orderings/thresholds/tunings): reference = fill estimate 30 + library allocation; variants = fill estimate 1..8 (0..many in-flight expansions), '
          'caller workspace on a geometric ladder of lengths down to the first reported shortage at 4- and 8-byte alignment with fill 30 and fill 1..3, then a bisection to the smallest sufficient length and a sample of lengths on the 4-byte grid right above it (reduced-growth expansions); byte hash of (perm_r, perm_c, supernode partition, row lists, L values, U colptr/rowind/values) must equal the reference; '
-         'QuerySpace for_lu against the documented accounting; non-trivial = at least 4 bitwise comparisons and at least one expansion; distinct = hash(pattern, ColPerm, kind)',
-    counter_names=['bitwise comparisons that agreed', 'workspace runs compared', 'workspace runs that reported shortage', 'max expansions in one factorization', 'comparisons in the band just above the smallest sufficient length', 'runs started at a chosen initial capacity that agreed'],
+         'QuerySpace for_lu against the documented accounting; the reported number of memory expansions against the growths in flight the monitor observed during that call (hook events inside a workspace, ?expand allocations in the ledger otherwise), also for a SamePattern_SameRowPerm refactorization in the same storage after a capacity start; non-trivial = at least 4 bitwise comparisons and at least one expansion; distinct = hash(pattern, ColPerm, kind)',
+    counter_names=['bitwise comparisons that agreed', 'workspace runs compared', 'workspace runs that reported shortage', 'max expansions in one factorization', 'comparisons in the band just above the smallest sufficient length', 'runs started at a chosen initial capacity that agreed', 'expansion reports compared with observed growths', 'refactorizations whose report was judged'],
     min_nontrivial={'quick': 300, 'thorough': 15000},
-    require_tags={'quick': ['complete', 'ilu', 'mem=workspace', 'align=4', 'align=8', 'maxexpansions=3', 'minexpansions=0', 'band-above-minimum', 'tall', 'square', 'capacity-walk', 'ilu-missing-diagonal']},
+    require_tags={'quick': ['complete', 'ilu', 'mem=workspace', 'align=4', 'align=8', 'maxexpansions=3', 'minexpansions=0', 'band-above-minimum', 'tall', 'square', 'capacity-walk', 'ilu-missing-diagonal', 'refactor-report']},
     assumptions=['bundled C kernels have no alignment-dependent code paths (bitwise equality is what correct code produces; confirmed by the soak on the unchanged tree)'],
 )
